@@ -315,5 +315,6 @@ Qed.
 (* new keys are numbered by the current size of the dict: numbers of different keys differ *)
 Lemma number_keys_length keys : forall d, List.length (number_keys keys d) = List.length keys.
 Proof.
-  induction keys as [|k r IH]; intros d; simpl; auto. destruct (dict_get k d); simpl; rewrite IH; auto.
+  unfold number_keys. induction keys as [|k r IH]; intros d; simpl; auto.
+  destruct (gdict_get tuple_eq k d); simpl; rewrite IH; auto.
 Qed.
